@@ -312,6 +312,13 @@ def generate(repo):
             out.append(defn('gen_%s_test' % key, '(x b m : Q)', 'bool', wt[key]))
         out.append(defn('gen_dec_down_guard', '(c n : Z)', 'bool', wt['dec_down_guard']))
         out.append(defn('gen_dec_up_guard', '(c n : Z)', 'bool', wt['dec_up_guard']))
+        # the two maxmatch passes of spherematch(), compiled by the generic statement compiler of translate/c05.py
+        from translate import c05 as T5
+        out.append('(* spherematch(): the two maxmatch passes as statements of C05/Imp.v *)')
+        out.append('From Coq Require Import String.')
+        out.append('From PV Require Import C05.Imp.')
+        out.append('Open Scope string_scope.')
+        out += T5.generate_greedy(repo)
         out.append('Definition chunks_recognised : bool := true.')
     except (U, SyntaxError, KeyError, IndexError, AttributeError) as e:
         info['recognised'] = False
